@@ -209,19 +209,21 @@ def directResult (c : CallIn) : Result :=
 def directLeg (s : St) (before : List Target) (c : CallIn) : St × CallOut :=
   (s, ⟨before ++ [.direct], directResult c⟩)
 
+/-- The gateway leg inside `with self._fail_safe:` and what `__exit__` makes of its outcome. -/
+def gwLeg (cfg : Cfg) (s2 : St) (c : CallIn) : St × CallOut :=
+  match c.gw with
+  | .ok => ({ s2 with cnt := 0 }, ⟨[.gw], .respGw⟩)       -- `__exit__(None)`: reset
+  | .appExc => (s2, ⟨[.gw], .raiseGwApp⟩)                 -- not handled: propagate, no count
+  | .connErr => directLeg (onError cfg s2) [.gw] c        -- handled: count, swallow, fall through
+  | .errHdr => directLeg (onError cfg s2) [.gw] c
+
 /-- One intercepted `Session.request`. -/
 def call (cfg : Cfg) (s : St) (c : CallIn) : St × CallOut :=
   let s1 := stateOk cfg s
   if s1.ok then
     match isAllowed cfg (mkFilter cfg) s1.cache c.host c.hdr with
     | .error e => (s1, ⟨[], .raiseDec e⟩)                 -- `__exit__` returns False
-    | .ok (true, cache) =>
-      let s2 := { s1 with cache := cache }
-      match c.gw with
-      | .ok => ({ s2 with cnt := 0 }, ⟨[.gw], .respGw⟩)     -- `__exit__(None)`: reset
-      | .appExc => (s2, ⟨[.gw], .raiseGwApp⟩)               -- not handled: propagate, no count
-      | .connErr => directLeg (onError cfg s2) [.gw] c      -- handled: count, swallow, fall through
-      | .errHdr => directLeg (onError cfg s2) [.gw] c
+    | .ok (true, cache) => gwLeg cfg { s1 with cache := cache } c
     | .ok (false, cache) => directLeg { s1 with cache := cache, cnt := 0 } [] c
   else directLeg { s1 with cnt := 0 } [] c
 
